@@ -246,13 +246,37 @@ def rule_marker_table(ctx):
         if x[0] == "constx" and isinstance(x[1], str) and x[1].startswith('"'):
             import ast
             return len(ast.literal_eval(x[1]))
+        if x[0] in ("array", "agg") and "char" in show(x) or (x[0] == "constx" and isinstance(x[1], str) and x[1].lstrip("&").startswith("['")):
+            return 1        # a set of alternative single characters
         raise _Deep("pattern %s" % show(x)[:40])
+
+    base = [{1: (0, 0)}]        # what the arguments of the body being scanned stand for (the closure of a `filter`: its element)
+
+    def payload_offsets(e):
+        """Offsets of the string inside an Option-valued expression (strip_prefix / strip_suffix, filtered or not)."""
+        while e[0] in ("ref", "deref", "cast"):
+            e = e[2] if e[0] == "cast" else e[1]
+        if e[0] == "call":
+            short = str(e[1]).rsplit("::", 1)[-1]
+            if short == "strip_prefix":
+                f_, b_ = offsets(e[2][0])
+                return f_ + plen(e[2][1]), b_
+            if short == "strip_suffix":
+                f_, b_ = offsets(e[2][0])
+                return f_, b_ + plen(e[2][1])
+            if short == "filter" and "Option" in str(e[1]):
+                return payload_offsets(e[2][0])
+        raise _Deep("optional string expression %s" % show(e)[:60])
 
     def offsets(e):
         while e[0] in ("ref", "deref", "cast"):
             e = e[2] if e[0] == "cast" else e[1]
-        if e[0] == "arg" and e[1] == 1:
-            return 0, 0
+        if e[0] == "arg" and e[1] in base[-1]:
+            return base[-1][e[1]]
+        if e[0] == "call" and str(e[1]).endswith("::unwrap_or") and "Option" in str(e[1]) and len(e[2]) == 2:
+            # either alternative: the deeper of the two bounds what is inspected
+            (f1, b1), (f2, b2) = payload_offsets(e[2][0]), offsets(e[2][1])
+            return max(f1, f2), max(b1, b2)
         if e[0] == "subslice":
             f_, b_ = offsets(e[1])
             return f_ + e[2], b_ + (e[3] if e[4] else 0)
@@ -315,6 +339,18 @@ def rule_marker_table(ctx):
             elif short in ("strip_suffix", "ends_with"):
                 f_, b_ = offsets(e[2][0])
                 need["back"] = max(need["back"], b_ + plen(e[2][1]))
+            elif short == "filter" and "Option" in str(e[1]) and len(e[2]) == 2 and e[2][1][0] == "closure":
+                # the predicate looks at the optional string: scan its body with its element standing for that string
+                cf = get_fn(facts, M, e[2][1][1])
+                base.append({2: payload_offsets(e[2][0])})
+                try:
+                    for conds_, res_ in decision_paths(cf):
+                        for d_, _, _ in conds_:
+                            scan(d_)
+                        if res_ is not None:
+                            scan(res_)
+                finally:
+                    base.pop()
         elif e[0] == "bin" and e[1] in ("Ge", "Gt", "Le", "Lt", "Eq", "Ne"):
             for x, y in ((e[2], e[3]), (e[3], e[2])):
                 x = strip_casts(x)
